@@ -50,5 +50,8 @@ P3 == {PCase("P3", <<F("a", Arr(DeclBase(ns)), 0, 1)>>, <<SeqV(SendSeq(DeclBase(
          ns \in {"tns", "urn:other"}, m \in Mixed, poly \in BOOLEAN}
       \cup {PCase("P3", <<F("m", DeclBase(ns), 0, 99)>>, <<SeqV(SendSeq(DeclBase(ns), m, poly))>>, <<Arr(DeclBase(ns))>>, <<SeqV(m)>>, poly) :
          ns \in {"tns"}, m \in Mixed \ {<<>>}, poly \in BOOLEAN}
-PolyCases == P1 \cup P2 \cup P3
+\* P4: the deepest class declared itself - its own flat layout: grandparent's, parent's, own fields
+P4 == {PCase("P4", <<F("o", PL(ns), 0, 1)>>, <<v>>, <<PL(ns)>>, <<v>>, FALSE) : ns \in {"tns", "urn:other"}, v \in LeafVs}
+      \cup {PCase("P4", <<F("a", Arr(PL("tns")), 0, 1)>>, <<SeqV(<<v, v>>)>>, <<Arr(PL("tns"))>>, <<SeqV(<<v>>)>>, FALSE) : v \in LeafVs}
+PolyCases == P1 \cup P2 \cup P3 \cup P4
 =============================================================================
